@@ -9,6 +9,8 @@ import (
 	"os"
 	"path/filepath"
 	"strings"
+	"sync"
+	"sync/atomic"
 	"syscall"
 	"time"
 
@@ -193,7 +195,7 @@ func (g *c20Gen) message(method string) proto.Message {
 	case "/v1.Lister/ListAccounts":
 		q := &pb.ListAccountsRequest{}
 		for i, n := 0, []int{0, 1, 2, 5, 200}[r.Intn(5)]; i < n; i++ {
-			q.Paths = append(q.Paths, []string{"Wallet1", "Wallet1/acct.*", "D", "", "/", "Wallet1/[", "Wallet1/(a|b", g.name(), strings.Repeat("W", 70000)}[r.Intn(9)])
+			q.Paths = append(q.Paths, []string{"Wallet1", "Wallet1/acct.*", "D", "", "/", "Wallet1/[", "Wallet1/(a|b", g.name(), strings.Repeat("W", 70000), "Empty", "Empty/new.*"}[r.Intn(11)])
 		}
 		return q
 	case "/v1.AccountManager/Unlock":
@@ -207,7 +209,7 @@ func (g *c20Gen) message(method string) proto.Message {
 		}
 		if r.Intn(12) == 0 {
 			// A request that really creates an account (the write path of the account cache).
-			q = &pb.GenerateRequest{Account: "Wallet1/new" + fmt.Sprint(r.Intn(1000000)), Passphrase: []byte("pass"), Participants: 1, SigningThreshold: 1}
+			q = &pb.GenerateRequest{Account: []string{"Wallet1", "Empty"}[r.Intn(2)] + "/new" + fmt.Sprint(r.Intn(1000000)), Passphrase: []byte("pass"), Participants: 1, SigningThreshold: 1}
 		}
 		return q
 	case "/v1.WalletManager/Unlock":
@@ -356,7 +358,8 @@ func c20Dispatch(st *rig.Stack, ctx context.Context, method string, raw []byte) 
 	return "response", nil
 }
 
-var c20Wallets = map[string][]string{"Wallet1": {"canary", "acct0", "acct1", "acct2", "acct3"}, "Wallet2": {"acct0"}}
+// "Empty" has no account at start-up: accounts created in it live only in the fetcher's dynamic overlay.
+var c20Wallets = map[string][]string{"Wallet1": {"canary", "acct0", "acct1", "acct2", "acct3"}, "Wallet2": {"acct0"}, "Empty": {}}
 
 func c20NewGen(r *rand.Rand) *c20Gen {
 	g := &c20Gen{r: r, wallets: []string{"Wallet1", "Wallet2", "D"}}
@@ -372,7 +375,99 @@ func c20NewGen(r *rand.Rand) *c20Gen {
 	return g
 }
 
-func init() { Children["C20child"] = c20Child }
+// c20ConcurrentMix hammers the state that requests share (the fetcher's dynamic account overlay, wallet and
+// account lock flags) from several goroutines at once: listings and signing by key run while accounts are
+// being created, locked and unlocked.  call issues one request and reports whether it was answered.
+func c20ConcurrentMix(seconds int, seed int64, call func(method string, msg proto.Message) bool) (int64, bool) {
+	var ops atomic.Int64
+	var failed atomic.Bool
+	stop := make(chan struct{})
+	var wg sync.WaitGroup
+	worker := func(f func(r *rand.Rand, i int) (string, proto.Message), id int) {
+		wg.Add(1)
+		go func() {
+			defer wg.Done()
+			r := rand.New(rand.NewSource(seed*100 + int64(id)))
+			for i := 0; ; i++ {
+				select {
+				case <-stop:
+					return
+				default:
+				}
+				m, msg := f(r, i)
+				if !call(m, msg) {
+					failed.Store(true)
+					return
+				}
+				ops.Add(1)
+			}
+		}()
+	}
+	lister := func(r *rand.Rand, _ int) (string, proto.Message) {
+		return "/v1.Lister/ListAccounts", &pb.ListAccountsRequest{Paths: [][]string{{"Empty"}, {"Empty", "Wallet1"}, {"Wallet1", "Empty/new.*"}, {"D", "Empty"}}[r.Intn(4)]}
+	}
+	creator := func(wallet string) func(r *rand.Rand, i int) (string, proto.Message) {
+		return func(r *rand.Rand, i int) (string, proto.Message) {
+			return "/v1.AccountManager/Generate", &pb.GenerateRequest{Account: fmt.Sprintf("%s/mix%d-%d", wallet, seed, i), Passphrase: []byte("pass"), Participants: 1, SigningThreshold: 1}
+		}
+	}
+	signer := func(r *rand.Rand, i int) (string, proto.Message) {
+		key := rig.DetKey("ndw-Wallet1", 1+r.Intn(4)).Pub
+		if r.Intn(3) == 0 {
+			key = randBytes(r, 48) // unknown key: the lookup falls through to the dynamic overlay
+		}
+		return "/v1.Signer/Sign", &pb.SignRequest{Id: &pb.SignRequest_PublicKey{PublicKey: key}, Data: randBytes(r, 32), Domain: Dom([]byte{9, 0, 0, 0}, 1)}
+	}
+	locker := func(r *rand.Rand, i int) (string, proto.Message) {
+		switch i % 4 {
+		case 0:
+			return "/v1.WalletManager/Lock", &pb.LockWalletRequest{Wallet: "Empty"}
+		case 1:
+			return "/v1.WalletManager/Unlock", &pb.UnlockWalletRequest{Wallet: "Empty", Passphrase: []byte("pass")}
+		case 2:
+			return "/v1.AccountManager/Lock", &pb.LockAccountRequest{Account: "Wallet1/acct1"}
+		}
+		return "/v1.AccountManager/Unlock", &pb.UnlockAccountRequest{Account: "Wallet1/acct1", Passphrase: []byte("pass")}
+	}
+	for i := 0; i < 3; i++ {
+		worker(lister, i)
+	}
+	worker(creator("Empty"), 3)
+	worker(creator("Wallet1"), 4)
+	worker(signer, 5)
+	worker(signer, 6)
+	worker(locker, 7)
+	time.Sleep(time.Duration(seconds) * time.Second)
+	close(stop)
+	done := make(chan struct{})
+	go func() { wg.Wait(); close(done) }()
+	select {
+	case <-done:
+	case <-time.After(60 * time.Second):
+		return ops.Load(), false
+	}
+	return ops.Load(), !failed.Load()
+}
+
+func init() {
+	Children["C20child"] = c20Child
+	Children["C20race"] = func(cfg Cfg) int {
+		c, err := rig.NewCluster(rig.ClusterOpts{Dir: filepath.Join(cfg.Work, "cluster"), IDs: []uint64{1, 2}, NDWallets: c20Wallets})
+		if err != nil {
+			fmt.Println("cannot build cluster:", err)
+			return 3
+		}
+		st := c.Inst[1].Stack
+		ctx := rig.HandlerCtx("client1", "10.0.0.1")
+		ops, _ := c20ConcurrentMix(cfg.N(4, 20), cfg.Seed, func(method string, msg proto.Message) bool {
+			raw, _ := proto.Marshal(msg)
+			_, _ = c20Dispatch(st, ctx, method, raw)
+			return true
+		})
+		fmt.Printf("RACE-CHILD operations %d\n", ops)
+		return 0
+	}
+}
 
 // c20Child is the in-process driver: it logs every input before executing it.
 func c20Child(cfg Cfg) int {
@@ -454,6 +549,24 @@ func c20Child(cfg Cfg) int {
 		if i%50 == 49 && !canary(i) {
 			return 4
 		}
+	}
+	// Concurrent phase: the last requests before a death are whatever the workers were doing.
+	_, _ = lf.Write([]byte("concurrent-mix phase: listings and signing by key while accounts are created, locked and unlocked\n"))
+	ops, answered := c20ConcurrentMix(3, cfg.Seed+int64(len(cfg.Args[0])), func(method string, msg proto.Message) bool {
+		raw, _ := proto.Marshal(msg)
+		ch := make(chan struct{}, 1)
+		go func() { _, _ = c20Dispatch(st, ctx, method, raw); ch <- struct{}{} }()
+		select {
+		case <-ch:
+			return true
+		case <-time.After(45 * time.Second):
+			fmt.Printf("CHILD-VIOLATION a %s request issued concurrently with others was not answered within 45 s\n", method)
+			return false
+		}
+	})
+	fmt.Printf("STAT concurrent_mix_requests %d\n", ops)
+	if !answered || !canary(total) {
+		return 4
 	}
 	for k, v := range counts {
 		fmt.Printf("STAT %s %d\n", strings.ReplaceAll(k, " ", ":"), v)
@@ -539,6 +652,7 @@ func C20(cfg Cfg) int {
 	t1 := time.Now()
 	c20Wire(run, cfg)
 	run.Set("wire_wall_s", time.Since(t1).Seconds())
+	raceChild(run, cfg, "C20race")
 	if run.Get("inproc_inputs") == 0 || run.Get("wire_inputs") == 0 {
 		run.Inconclusive("a driver executed no input")
 	}
@@ -627,6 +741,28 @@ func c20Wire(run *evid.Run, cfg Cfg) {
 				map[string]any{"method": method, "hex": hex.EncodeToString(raw), "daemon_log_tail": d.LogTail(3000)})
 			return
 		}
+	}
+	// Concurrent phase over the wire.
+	ops, answered := c20ConcurrentMix(cfg.N(4, 30), cfg.Seed, func(method string, msg proto.Message) bool {
+		raw, _ := proto.Marshal(msg)
+		var reply []byte
+		ctx, cancel := context.WithTimeout(context.Background(), 60*time.Second)
+		defer cancel()
+		err := conn.Invoke(ctx, method, &raw, &reply, grpc.ForceCodec(rawCodec{}))
+		if err != nil && ctx.Err() != nil {
+			return false
+		}
+		return d.Alive()
+	})
+	run.Count("wire_concurrent_mix_requests", int(ops))
+	run.Distinct("wire concurrent mix")
+	if !d.Alive() {
+		run.Violate("the daemon died while listings, signing by key, account creation and lock/unlock ran concurrently: "+firstPanicLine(d.LogTail(40000)), map[string]any{"daemon_log_tail": d.LogTail(3000)})
+		return
+	}
+	if !answered {
+		run.Violate("the daemon stopped answering while listings, signing by key, account creation and lock/unlock ran concurrently", nil)
+		return
 	}
 	run.Sample(map[string]any{"method": "/v1.Signer/Sign", "example": "account=Wallet1/acct0 data(32 bytes) domain(3 bytes)"})
 }
